@@ -187,6 +187,9 @@ class HistogramBase(abc.ABC):
         _FREQUENCY_SUPPORTED_DTYPES
     )
 
+    __array_priority__ = 100
+    """Make numpy scalars and arrays defer binary operations to the histogram."""
+
     @property
     def default_axis_names(self) -> List[str]:
         """Axis names to be used when an instance does not define them."""
